@@ -53,7 +53,7 @@ theorem possiblyNullableStruct_sound {S : Sig} {Γ : Ctx} {p obj : PExpr} (hs : 
         · simp [wf]
       refine ⟨wU, ?_⟩
       intro hp ρ v he hv
-      simp only [coalescePlain] at hp
+      simp only [coalesceOk] at hp
       simp only [eval] at hv
       cases hav : eval S Γ ρ p with
       | val w =>
@@ -112,7 +112,7 @@ theorem field_sound {S : Sig} {Γ : Ctx} {name : Name} {obj p : PExpr} (hs : Sou
           rw [wf_struct] at wnn
           exact (wfList_iff _).mp wnn.2.2 ft (List.mem_of_getElem? hft)
         -- what evaluation yields, independent of the two typing cases
-        have hval : ∀ ρ v, coalescePlain obj = true → EnvConforms Γ ρ →
+        have hval : ∀ ρ v, coalesceOk obj = true → EnvConforms Γ ρ →
             (match eval S Γ ρ obj with
               | .val .null => Res.val .null
               | .val (.struct xs) =>
@@ -148,7 +148,7 @@ theorem field_sound {S : Sig} {Γ : Ctx} {name : Name} {obj p : PExpr} (hs : Sou
           subst h
           refine ⟨wft, ?_⟩
           intro hp ρ v he hv
-          simp only [coalescePlain] at hp
+          simp only [coalesceOk] at hp
           simp only [eval] at hv
           rcases hval ρ v hp he hv with ⟨_, hn⟩ | hc
           · -- an object type has no NULL value
@@ -163,7 +163,7 @@ theorem field_sound {S : Sig} {Γ : Ctx} {name : Name} {obj p : PExpr} (hs : Sou
             subst h
             refine ⟨typeSum_wf hsum wft (by simp [wf]), ?_⟩
             intro hp ρ v he hv
-            simp only [coalescePlain] at hp
+            simp only [coalesceOk] at hp
             simp only [eval] at hv
             rcases hval ρ v hp he hv with ⟨rfl, _⟩ | hc
             · exact (typeSum_null_char hsum .null).mpr (Or.inr rfl)
@@ -303,7 +303,7 @@ theorem coalesceTy_upper : ∀ (as : List PExpr) (t T : Ty), coalesceTy t as = .
 
 theorem evalCoalesce_spec (S : Sig) (Γ : Ctx) (ρ : List (List Value)) (he : EnvConforms Γ ρ) (T : Ty) :
     ∀ (ms : List Coal.Mapping) (args : List PExpr) (v : Value),
-      (∀ a ∈ args, Sound S Γ a ∧ plainData a.ty = true ∧ a.ty.is T = .is) → coalescePlainList args = true →
+      (∀ a ∈ args, Sound S Γ a ∧ plainData a.ty = true ∧ a.ty.is T = .is) → coalesceOkList args = true →
       (conforms T .null = true ∨ (args ≠ [] ∧ ms.length = args.length)) →
       evalCoalesce S Γ ρ ms args = .val v → conforms T v = true
   | [], [], v, _, _, hn, h => by
@@ -323,7 +323,7 @@ theorem evalCoalesce_spec (S : Sig) (Γ : Ctx) (ρ : List (List Value)) (he : En
     · exact absurd rfl hn
   | m :: ms, a :: as, v, hs, hp, _, h => by
     simp only [evalCoalesce] at h
-    simp only [coalescePlainList, Bool.and_eq_true] at hp
+    simp only [coalesceOkList, Bool.and_eq_true] at hp
     have ⟨hsa, hpa, hia⟩ := hs a (by simp)
     cases hav : eval S Γ ρ a with
     | val w =>
@@ -363,43 +363,38 @@ theorem mapM_length {α β} (f : α → Option β) : ∀ (l : List α) (r : List
         subst h
         simp [mapM_length f xs ys hxs]
 
-theorem coalesce_sound {S : Sig} {Γ : Ctx} {p : PExpr} {ps : List PExpr} {T : Ty} (hargs : ∀ a ∈ p :: ps, Sound S Γ a)
-    (h : coalesceTy p.ty ps = .ok T) :
-    wf T = true ∧ (coalescePlain (.coalesce T (p :: ps)) = true → ∀ ρ v, EnvConforms Γ ρ →
-      eval S Γ ρ (.coalesce T (p :: ps)) = .val v → conforms T v = true) := by
-  constructor
-  · -- well-formedness needs no flatness
-    have : ∀ (as : List PExpr) (t T : Ty), coalesceTy t as = .ok T → wf t = true → (∀ a ∈ as, wf a.ty = true) → wf T = true := by
-      intro as
-      induction as with
-      | nil => intro t T h wt _; simp only [coalesceTy, Except.ok.injEq] at h; subst h; exact wt
-      | cons a as ih =>
-        intro t T h wt ha
-        simp only [coalesceTy] at h
-        cases hs : typeSum t a.ty with
-        | none => simp [hs] at h
-        | some s =>
-          simp only [hs] at h
-          exact ih s T h (typeSum_wf hs wt (ha a (by simp))) (fun b hb => ha b (by simp [hb]))
-    exact this ps p.ty T h (hargs p (by simp)).1 (fun a ha => (hargs a (by simp [ha])).1)
-  · intro hp ρ v he hv
-    simp only [coalescePlain, Bool.and_eq_true, List.all_eq_true] at hp
-    have hplain : ∀ a ∈ p :: ps, plainData a.ty = true := hp.2
-    have ⟨_, h0, hrest⟩ := coalesceTy_upper ps p.ty T h (hargs p (by simp)).1 (plainData_noRec (hplain p (by simp)))
-      (fun a ha => ⟨(hargs a (by simp [ha])).1, plainData_noRec (hplain a (by simp [ha]))⟩)
-    have hall : ∀ a ∈ p :: ps, Sound S Γ a ∧ plainData a.ty = true ∧ a.ty.is T = .is := by
-      intro a ha
-      refine ⟨hargs a ha, hplain a ha, ?_⟩
-      simp only [List.mem_cons] at ha
-      rcases ha with rfl | ha
-      · exact h0
-      · exact hrest a ha
-    simp only [eval] at hv
-    cases hm : layoutMappings T (p :: ps) with
-    | none => simp [hm] at hv
-    | some ms =>
-      simp only [hm] at hv
-      have hlen : ms.length = (p :: ps).length := mapM_length _ _ ms hm
-      exact evalCoalesce_spec S Γ ρ he T ms (p :: ps) v hall hp.1 (Or.inr ⟨by simp, hlen⟩) hv
+/-- well-formedness of the COALESCE type needs no side condition -/
+theorem coalesceTy_wf : ∀ (as : List PExpr) (t T : Ty), coalesceTy t as = .ok T → wf t = true → (∀ a ∈ as, wf a.ty = true) →
+    wf T = true
+  | [], t, T, h, wt, _ => by simp only [coalesceTy, Except.ok.injEq] at h; subst h; exact wt
+  | a :: as, t, T, h, wt, ha => by
+    simp only [coalesceTy] at h
+    cases hs : typeSum t a.ty with
+    | none => simp [hs] at h
+    | some s =>
+      simp only [hs] at h
+      exact coalesceTy_wf as s T h (typeSum_wf hs wt (ha a (by simp))) (fun b hb => ha b (by simp [hb]))
+
+/-- COALESCE over struct-, tuple- and `Any`-free argument types -/
+theorem coalesce_sound_plain {S : Sig} {Γ : Ctx} {p : PExpr} {ps : List PExpr} {T : Ty} (hargs : ∀ a ∈ p :: ps, Sound S Γ a)
+    (h : coalesceTy p.ty ps = .ok T) (hpl : coalesceOkList (p :: ps) = true) (hplain : ∀ a ∈ p :: ps, plainData a.ty = true)
+    (ρ : List (List Value)) (v : Value) (he : EnvConforms Γ ρ) (hv : eval S Γ ρ (.coalesce T (p :: ps)) = .val v) :
+    conforms T v = true := by
+  have ⟨_, h0, hrest⟩ := coalesceTy_upper ps p.ty T h (hargs p (by simp)).1 (plainData_noRec (hplain p (by simp)))
+    (fun a ha => ⟨(hargs a (by simp [ha])).1, plainData_noRec (hplain a (by simp [ha]))⟩)
+  have hall : ∀ a ∈ p :: ps, Sound S Γ a ∧ plainData a.ty = true ∧ a.ty.is T = .is := by
+    intro a ha
+    refine ⟨hargs a ha, hplain a ha, ?_⟩
+    simp only [List.mem_cons] at ha
+    rcases ha with rfl | ha
+    · exact h0
+    · exact hrest a ha
+  simp only [eval] at hv
+  cases hm : layoutMappings T (p :: ps) with
+  | none => simp [hm] at hv
+  | some ms =>
+    simp only [hm] at hv
+    have hlen : ms.length = (p :: ps).length := mapM_length _ _ ms hm
+    exact evalCoalesce_spec S Γ ρ he T ms (p :: ps) v hall hpl (Or.inr ⟨by simp, hlen⟩) hv
 
 end Octo.Tc
